@@ -119,7 +119,7 @@ def fileOf (s : Sess) (p : Path) : Option FileJ := s.files.find? (·.path == p)
 def truthTarget (s : Sess) (q : ReqJ) : Option Span :=
   match fileOf s q.cur with
   | none => none
-  | some f => spanAt (f.spans.map (·.sp)) q.pos
+  | some f => (f.spans.find? (·.sp.has q.pos)).map (·.sp)
 
 def truthFiles (s : Sess) (q : ReqJ) : List (Path × List Span) :=
   q.scope.filterMap fun p => (fileOf s p).map fun f => (p, f.spans.map (·.sp))
@@ -249,6 +249,66 @@ def judge (s : Sess) (j : Json) (q : ReqJ) (incl : Bool) (implLocs : List Loc) (
       else ⟨false, true, rs, "known: " ++ ", ".intercalate rs⟩
     | _, _ => ⟨false, true, [], "answer differs from the occurrences for a reason that is not a known finding"⟩
 
+/-- Judge the answer of prepareRename. -/
+def judgePrep (s : Sess) (q : ReqJ) (impl : Option LRange) : Verdict :=
+  let curOk := match fileOf s q.cur with | some f => f.perrs == 0 | none => false
+  if !curOk then ⟨true, false, [], ""⟩ else
+  let tt := truthTarget s q
+  if impl == tt.map (·.range) then ⟨true, true, [], ""⟩ else
+  let nt := spanAt (treeNodes (s.trees[q.cj]?.getD default)) q.pos
+  if impl != nt.map (·.range) then ⟨false, true, [], "prepareRename range is not the lexeme under the cursor"⟩ else
+  let curSpans := (fileOf s q.cur).map (·.spans) |>.getD []
+  let rs := ((curSpans.filter fun x => x.sp.range.start.line == q.pos.line).filterMap reasonOfSpan).eraseDups
+  if rs.isEmpty then ⟨false, true, [], "prepareRename range is not the lexeme under the cursor"⟩
+  else ⟨false, true, rs, "known: " ++ ", ".intercalate rs⟩
+
+/-! Text-level check of a rename: substitute the generator's spans in the original text. -/
+def u16w (c : Char) : Nat := if c.toNat ≥ 0x10000 then 2 else 1
+def idxOfU16 : List Char → Nat → Nat
+  | [], _ => 0
+  | c :: cs, n => if n = 0 then 0 else 1 + idxOfU16 cs (n - u16w c)
+
+def decodeText (b : Bytes) : List Char := ((String.fromUTF8? (ByteArray.mk b.toArray)).getD "").toList
+def encodeText (l : List Char) : Bytes := (String.ofList l).toUTF8.toList
+
+def splitOn (l : List Char) : List (List Char) :=
+  let rec go : List Char → List Char → List (List Char)
+    | [], cur => [cur.reverse]
+    | c :: cs, cur => if c == '\n' then cur.reverse :: go cs [] else go cs (c :: cur)
+  go l []
+
+def substText (text : Bytes) (spans : List Span) (new : Bytes) : Bytes :=
+  let lines := splitOn (decodeText text)
+  let newC := decodeText new
+  let out := lines.zipIdx.map fun (ln, i) =>
+    let sp := ((spans.filter fun x => x.range.start.line == i).toArray.qsort spanLt).toList
+    let pairs := sp.map fun x => (idxOfU16 ln x.range.start.char, idxOfU16 ln x.range.stop.char)
+    substSpans ln 0 pairs newC
+  encodeText (List.intercalate ['\n'] out)
+
+/-- After a rename whose edits are exactly the occurrences: every touched file's new text is the
+    old text with the lexemes replaced, it parses without errors and to the original structure
+    with the name substituted; untouched files hold no occurrence. -/
+def judgeAfter (s : Sess) (q : ReqJ) (sp : Span) (after : Json) : Verdict :=
+  let aft := match after with | .arr a => a.toList | _ => []
+  let bad := q.scope.filterMap fun p =>
+    match fileOf s p with
+    | none => some s!"{p}: unknown file"
+    | some f =>
+      let occ := (f.spans.map (·.sp)).filter fun x => x.isSym sp.kind sp.name true
+      match aft.find? (fun a => jstr a "path" == p) with
+      | none => if occ.isEmpty then none else some s!"{p}: occurrences but no edits"
+      | some a =>
+        if !(jbool a "ok") then some s!"{p}: overlapping edits"
+        else if jhex a "text" != substText f.text occ q.newName then some s!"{p}: text after the rename is not the text with the lexemes replaced"
+        else if jnat a "perrs" != 0 then some s!"{p}: renamed text no longer parses"
+        else if !sameStructure sp.kind sp.name q.newName (s.trees[f.tree]?.getD default) (s.trees[jnat a "tree"]?.getD default) then
+          some s!"{p}: renamed text does not parse to the original structure with the name substituted"
+        else none
+  match bad.head? with
+  | none => ⟨true, true, [], ""⟩
+  | some w => ⟨false, true, [], w⟩
+
 def combine (vs : List Verdict) : Json :=
   let bad := vs.filter fun v => !v.ok
   let unexcused := bad.filter fun v => v.known.isEmpty
@@ -265,13 +325,51 @@ def refs (j : Json) : Json :=
   let reqs := (jarr j "reqs").toList.map reqOf
   let impl := (jarr j "impl").toList
   let model := reqs.map fun q => Json.arr ((sortLocs (references (mkRequest s q) q.incl)).toArray.map locJ)
-  let vs := (reqs.zip impl).map fun (q, im) =>
-    judge s j q q.incl ((match im with | .arr a => a.toList | _ => []).map locOfJ)
+  let vs := ((reqs.zip impl).zipIdx).map fun ((q, im), qi) =>
+    let v := judge s j q q.incl ((match im with | .arr a => a.toList | _ => []).map locOfJ)
+    { v with why := s!"req {qi}: {v.why}" }
+  (combine vs).setObjVal! "model" (Json.arr model.toArray)
+
+def editJ (p : Path) (e : TextEdit) : Json :=
+  Json.arr #[Json.str p, toJson e.range.start.line, toJson e.range.start.char,
+    toJson e.range.stop.line, toJson e.range.stop.char, hx e.newText]
+
+def renameOp (j : Json) : Json :=
+  let s := decodeSess j
+  let reqs := (jarr j "reqs").toList.map reqOf
+  let impl := (jarr j "impl").toList
+  let after := (jarr j "after").toList
+  let model := reqs.map fun q =>
+    let rq := mkRequest s q
+    let prep := match prepareRename rq with | some r => lrangeJ r | none => Json.null
+    let edits := match rename rq q.newName with
+      | none => Json.null
+      | some ch =>
+        let flat := ch.flatMap fun (p, es) => es.map fun e => (p, e)
+        let sorted := (flat.toArray.qsort fun a b => locKeyLt ⟨a.1, a.2.range⟩ ⟨b.1, b.2.range⟩).toList
+        Json.arr (sorted.toArray.map fun (p, e) => editJ p e)
+    Json.mkObj [("prep", prep), ("edits", edits)]
+  let vs := (((reqs.zip impl).zip after).zipIdx).flatMap fun (((q, im), aft), qi) =>
+    let prepJ := jget im "prep"
+    let prep : Option LRange := match prepJ with
+      | .arr a => some ⟨⟨asNat a[0]!, asNat a[1]!⟩, ⟨asNat a[2]!, asNat a[3]!⟩⟩
+      | _ => none
+    let editsJ := match jget im "edits" with | .arr a => a.toList | _ => []
+    let locs := editsJ.map locOfJ
+    let texts := editsJ.map fun e => match e with | .arr a => unhx a[5]! | _ => []
+    let v1 := judgePrep s q prep
+    let v2 := judge s j q true locs
+    let v2 := if v2.ok && !(texts.all (· == q.newName)) then ⟨false, true, [], "an edit carries a text other than the new name"⟩ else v2
+    let v3 := match v2.ok && v2.inDomain, truthTarget s q with
+      | true, some sp => [judgeAfter s q sp aft]
+      | _, _ => []
+    ([v1, v2] ++ v3).map fun v => { v with why := s!"req {qi}: {v.why}" }
   (combine vs).setObjVal! "model" (Json.arr model.toArray)
 
 def handle (op : String) (j : Json) : Option Json :=
   match op with
   | "c09.refs" => some (refs j)
+  | "c09.rename" => some (renameOp j)
   | _ => none
 
 end HL.Driver.C09
